@@ -469,7 +469,7 @@ def source_fingerprint(repo):
 class Prop:
     pid = 'C09'
     props_file = 'Props/C09.v'
-    required_theorems = ['no_echo', 'no_ibgp_nonclient_to_nonclient', 'no_rs_boundary_crossing', 'loops_never_installed', 'ebgp_rewrite', 'ebgp_any_policy', 'ibgp_rewrite', 'ibgp_local_pref_any_policy', 'reflection_adds_originator_and_cluster', 'confed_rewrite', 'llgr_stale_marked', 'llgr_stale_readvertised', 'llgr_stale_readvertised_refuted', 'unknown_attr_rule', 'unknown_attr_rule_any_policy', 'as_path_prepend_spec', 'as_path_full_segment_rule', 'as_path_strip_confed_spec', 'as_path_count_spec', 'ebgp_policy_med', 'policy_actions_keep_decodable', 'no_panic_on_decodable', 'as_path_view_unambiguous', 'llgr_view_refreshed', 'llgr_refresh_addpath', 'llgr_refresh_best_only', 'llgr_stream_best_only', 'as_path_prepend_total', 'propagation_exactly_where_allowed', 'kernel_routes_withheld_from_nonclient_ibgp', 'best_only_complete', 'history_view_allowed', 'process_change_r_lower', 'process_change_r_lift', 'policy_prepend_then_export', 'loop_free_installed', 'rtc_filter_is_a_policy_wrapper', 'export_map_tracks_view', 'export_map_tracks_view_history']
+    required_theorems = ['no_echo', 'no_ibgp_nonclient_to_nonclient', 'no_rs_boundary_crossing', 'loops_never_installed', 'ebgp_rewrite', 'ebgp_any_policy', 'ibgp_rewrite', 'ibgp_local_pref_any_policy', 'reflection_adds_originator_and_cluster', 'confed_rewrite', 'llgr_stale_marked', 'llgr_stale_readvertised', 'llgr_stale_readvertised_refuted', 'unknown_attr_rule', 'unknown_attr_rule_any_policy', 'as_path_prepend_spec', 'as_path_full_segment_rule', 'as_path_strip_confed_spec', 'as_path_count_spec', 'ebgp_policy_med', 'policy_actions_keep_decodable', 'no_panic_on_decodable', 'as_path_view_unambiguous', 'llgr_view_refreshed', 'llgr_refresh_addpath', 'llgr_refresh_best_only', 'llgr_stream_best_only', 'as_path_prepend_total', 'export_map_covers_view_addpath', 'export_map_covers_view_addpath_history', 'llgr_stream_addpath', 'no_llgr_route_withdrawn', 'llgr_scenario_full_without_no_llgr', 'propagation_exactly_where_allowed', 'kernel_routes_withheld_from_nonclient_ibgp', 'best_only_complete', 'history_view_allowed', 'process_change_r_lower', 'process_change_r_lift', 'policy_prepend_then_export', 'loop_free_installed', 'rtc_filter_is_a_policy_wrapper', 'export_map_tracks_view', 'export_map_tracks_view_history']
     correspondence_name = ('Model/Export.v run_case vs daemon/src/event/export.rs + packet/src/bgp.rs AS_PATH edits '
                            '(harness/daemon/export_hx.rs)')
     rule = ('cases = one call of a real function each (AS_PATH edit, is_as_loop, export_attrs, pre_policy_defaults, '
@@ -910,6 +910,13 @@ class Prop:
                     sk = RS if d == RS else (RRC if d in (IBGP, RRC) else EBGP)
                     p = [1, self.a_src(sk, stale), [[0, [10, 0, 0, 9]]], base]
                     add('cls_llgr_community_shapes', [9] + self.a_one(self.a_ctx(d), 1 + stale, self.cid_for(d), p))
+        # ... and through the real table: Table::insert, export, restale_llgr + drop_no_llgr, export
+        for cv in comm_variants:
+            base = [[ORIGIN, 0x40, 0, 0], self.a_path_attr([(2, [65002])])] + ([[COMMUNITY, 0xC0, 1, cv]] if cv is not None else [])
+            for d in ROLES:
+                sk = RS if d == RS else (RRC if d in (IBGP, RRC) else EBGP)
+                for emax in (1, 2):
+                    add('cls_llgr_no_llgr_real_table', [11, self.a_ctx(d), emax, self.A_RX, self.cid_for(d), self.a_src(sk), [[0, [10, 0, 0, 9]]], base])
         # ---- route-server boundary, with the route server's own (local / kernel) routes
         for sk in ('local', 'kernel', EBGP, RS, IBGP, RRC, CONFED):
             for d in ROLES:
@@ -972,7 +979,7 @@ class Prop:
     def gen_cases(self, rng, tier):
         cases = []
         scale = 1 if tier == 'quick' else 8
-        if tier == 'quick' and self.fingerprint_changed():
+        if tier == 'quick' and not os.environ.get('VERIF_C09_NO_ESCALATE') and self.fingerprint_changed():
             # the anchored code differs from the text the model was written against: go deeper
             scale = 4
             self.rule += ' [source fingerprint changed: quick run at 4x size]'
